@@ -5,6 +5,8 @@ import AdfObdd.Stable
 import AdfObdd.MemoTransparent
 import AdfObdd.PersistAnswers
 import AdfObdd.JsonPersist
+import AdfObdd.PersistMore
+import AdfObdd.CliIOProofs
 /-! # C14 — persistence round trips preserve handles and answers
 
 `Persist.PBdd` / `PAdf` are `Bdd` / `Adf` with the serde-skipped bookkeeping explicit.  Two round
@@ -27,7 +29,7 @@ theorem import_fix (b : PBdd) (w : WF b.st) :
     let r := fixImport (importB (exportB b))
     r.st.nodes = b.st.nodes ∧ (∀ n : Node, r.st.uniq[n]? = b.st.uniq[n]?) ∧
     (∀ k : Nat × Nat × Bool, r.st.resC[k]? = none) ∧ (∀ k : Nat × Nat × Nat, r.st.iteC[k]? = none) ∧
-    WF r.st ∧ DepsOK r.st r.deps ∧ CntFull r.st r.cnt := by
+    WF r.st ∧ Persist.DepsOK r.st r.deps ∧ CntFull r.st r.cnt := by
   intro r
   have ⟨a, b', h⟩ := Persist.import_fix b w
   exact ⟨a, b', (import_skipped b).2.2.1, (import_skipped b).2.2.2, h.wf, h.deps, h.cnt⟩
@@ -47,7 +49,7 @@ counts; so root handles stored as bare numbers still point at the same nodes -/
 theorem rebuild_id (orig : Store) (w : WF orig) :
     let r := rebuildP orig.nodes
     r.st.nodes = orig.nodes ∧ (∀ n : Node, r.st.uniq[n]? = orig.uniq[n]?) ∧
-    WF r.st ∧ DepsOK r.st r.deps ∧ CntFull r.st r.cnt := by
+    WF r.st ∧ Persist.DepsOK r.st r.deps ∧ CntFull r.st r.cnt := by
   intro r
   have ⟨_, a, b, h⟩ := rebuildP_ok orig w
   exact ⟨a, b, h.wf, h.deps, h.cnt⟩
@@ -56,7 +58,7 @@ theorem rebuild_id (orig : Store) (w : WF orig) :
 unchanged, diagram store rebuilt -/
 theorem simplified_roundtrip (c : Codec) (a : PAdf) (w : WF a.bdd.st) :
     ∃ r, fromSimplified c (toSimplified c a) = some r ∧ r.names = a.names ∧ r.ac = a.ac ∧
-      r.bdd.st.nodes = a.bdd.st.nodes ∧ WF r.bdd.st ∧ DepsOK r.bdd.st r.bdd.deps := by
+      r.bdd.st.nodes = a.bdd.st.nodes ∧ WF r.bdd.st ∧ Persist.DepsOK r.bdd.st r.bdd.deps := by
   refine ⟨_, Persist.simplified_roundtrip c a, rfl, rfl, ?_⟩
   have ⟨_, x, _, h⟩ := rebuildP_ok a.bdd.st w
   exact ⟨x, h.wf, h.deps⟩
@@ -145,8 +147,8 @@ theorem future_ops_same_handles_roundtrips (ops : List Op) (b : PBdd) (hist : Li
 /-- precondition of `fix_import`: `var_deps` must be empty (exactly once, right after an import).
 On a live object, or applied a second time, the lists are misaligned with the node table -/
 theorem fix_import_precondition (b : PBdd) :
-    (b.deps.size ≠ 0 → ¬ DepsOK (fixImport b).st (fixImport b).deps) ∧
-    (b.st.nodes.size ≠ 0 → ¬ DepsOK (fixImport (fixImport b)).st (fixImport (fixImport b)).deps) :=
+    (b.deps.size ≠ 0 → ¬ Persist.DepsOK (fixImport b).st (fixImport b).deps) ∧
+    (b.st.nodes.size ≠ 0 → ¬ Persist.DepsOK (fixImport (fixImport b)).st (fixImport (fixImport b)).deps) :=
   ⟨fixImport_needs_empty_deps b, fixImport_twice_misaligned b⟩
 
 /-- the misuse, concretely: table after `variable(Var(0))`, `fix_import` run twice, then
@@ -182,7 +184,7 @@ theorem export_never_overwrites (fs : String → Option String) (path c1 c2 : St
 
 /-! non-vacuity: the fresh object is healthy; the misuse example above is concrete -/
 example : WF PBdd.new.st := WF_init
-example : DepsOK PBdd.new.st PBdd.new.deps :=
+example : Persist.DepsOK PBdd.new.st PBdd.new.deps :=
   ⟨rfl, fun t ht => by
     have : t = 0 ∨ t = 1 := by simp [PBdd.new, Store.init] at ht; omega
     rcases this with h | h <;> subst h <;> rfl⟩
@@ -297,7 +299,7 @@ theorem `Nat.toNat?_repr`. -/
 /-- `simplified_roundtrip` with the concrete decimal codec: no codec hypothesis left -/
 theorem simplified_roundtrip_decimal (a : PAdf) (w : WF a.bdd.st) :
     ∃ r, fromSimplified decimalCodec (toSimplified decimalCodec a) = some r ∧ r.names = a.names ∧
-      r.ac = a.ac ∧ r.bdd.st.nodes = a.bdd.st.nodes ∧ WF r.bdd.st ∧ DepsOK r.bdd.st r.bdd.deps :=
+      r.ac = a.ac ∧ r.bdd.st.nodes = a.bdd.st.nodes ∧ WF r.bdd.st ∧ Persist.DepsOK r.bdd.st r.bdd.deps :=
   simplified_roundtrip decimalCodec a w
 
 /-- the codec is not the identity in disguise: strings that are not decimal numerals are rejected
@@ -399,7 +401,7 @@ theorem text_import_fix (w : Nat → List Char) (hw : Json.WsOnly w) (a : PAdf) 
       r.names = a.names ∧ r.ac = a.ac ∧ r.bdd.st.nodes = a.bdd.st.nodes ∧
       (∀ n : Node, r.bdd.st.uniq[n]? = a.bdd.st.uniq[n]?) ∧
       (∀ k : Nat × Nat × Bool, r.bdd.st.resC[k]? = none) ∧ (∀ k : Nat × Nat × Nat, r.bdd.st.iteC[k]? = none) ∧
-      WF r.bdd.st ∧ DepsOK r.bdd.st r.bdd.deps ∧ CntFull r.bdd.st r.bdd.cnt := by
+      WF r.bdd.st ∧ Persist.DepsOK r.bdd.st r.bdd.deps ∧ CntFull r.bdd.st r.bdd.cnt := by
   obtain ⟨a', _, _, h, _, h1, h2, h3, h4, h5, h6, hh⟩ := Json.text_import_fix w hw a m ml cl hml hcl f wf
   exact ⟨_, h, h1, h2, h3, h4, h5, h6, hh.wf, hh.deps, hh.cnt⟩
 
@@ -501,6 +503,202 @@ example :
   refine ⟨by decide, by decide, by decide, ?_⟩
   rw [decimal_roundtrip]; simp [Json.B64]
 
+/-! ## the CLI with a file system: `--export <path>` / `--import` in the text-level model (`CliM.runTextIO`)
+
+`export_never_overwrites` above speaks about the three-line `cliExport`. `CliM.runTextIO` (CliIO.lean) is
+the whole binary - invocation with optional `--export p` / `--import`, text of the input file, a
+file-system snapshot (finite map path → content) - returning exit status, stdout and the file system
+afterwards; it extends C15's `CliM.runText` (`C15.io_without_options_is_runText`). As `main.rs` has it:
+only the naive arm knows the two options; the export happens after the object is built (or imported)
+and BEFORE anything is printed; on an existing path - empty file or not - an error is logged, nothing is
+written, and the run goes on with exit status 0 and the usual output. -/
+
+/-- **the CLI never overwrites an existing file**: for every invocation (any arm, any flags, with or
+without `--export`, `--import`), every input text and every file system, every path that existed
+before the run has the same content afterwards; in particular an export onto an existing path -
+whatever it holds, nothing included - changes nothing, and exporting twice leaves the first file as it was -/
+theorem export_never_overwrites_fs {T : Type} (W : CliM.World T) (fuel : Nat) (io : CliM.InvIO) (ord : CliM.Orders)
+    (t : List Char) (fs : CliM.FS) :
+    (∀ q c, fs.get q = some c → (CliM.runTextIO W fuel io ord t fs).fs.get q = some c) ∧
+    (∀ p, io.exportTo = some p → fs.has p = true → (CliM.runTextIO W fuel io ord t fs).fs = fs) ∧
+    (∀ (io2 : CliM.InvIO) (ord2 : CliM.Orders) (t2 : List Char) q c,
+      (CliM.runTextIO W fuel io ord t fs).fs.get q = some c →
+      (CliM.runTextIO W fuel io2 ord2 t2 (CliM.runTextIO W fuel io ord t fs).fs).fs.get q = some c) := by
+  refine ⟨fun q c h => CliM.runTextIO_keeps W fuel io ord t fs q c h, ?_,
+    fun io2 ord2 t2 q c h => CliM.runTextIO_keeps W fuel io2 ord2 t2 _ q c h⟩
+  intro p he hx
+  rcases CliM.runTextIO_fs W fuel io ord t fs with e | ⟨p', _, he', hfree, _⟩
+  · exact e
+  · rw [he] at he'; cases he'
+    unfold CliM.FS.has at hx; rw [hfree] at hx; cases hx
+
+/-- the same with the input file read from the file system (`runFileIO`; a missing input is a panic) -/
+theorem export_never_overwrites_file {T : Type} (W : CliM.World T) (fuel : Nat) (io : CliM.InvIO) (ord : CliM.Orders)
+    (input : CliM.Path) (fs : CliM.FS) (q : CliM.Path) (c : List Char) (h : fs.get q = some c) :
+    (CliM.runFileIO W fuel io ord input fs).fs.get q = some c := by
+  unfold CliM.runFileIO
+  cases fs.get input with
+  | none => exact h
+  | some t => exact CliM.runTextIO_keeps W fuel io ord t fs q c h
+
+/-- **a run writes at most one new path, the requested one**: the file system afterwards is the one
+before, or the one before plus ONE binding: for the path given with `--export`, which was free, in the
+naive arm, holding the compact JSON text of the object the arm built (`Json.print`, the two hash maps in
+the orders `ord`); every path afterwards existed before or is the requested one -/
+theorem export_writes_only_target {T : Type} (W : CliM.World T) (fuel : Nat) (io : CliM.InvIO) (ord : CliM.Orders)
+    (t : List Char) (fs : CliM.FS) :
+    let r := CliM.runTextIO W fuel io ord t fs
+    (r.fs = fs ∨ ∃ p o, io.exportTo = some p ∧ fs.get p = none ∧ io.inv.mode = .naive ∧ CliM.objOf W io t = some o ∧
+      r.refused = false ∧ r.fs = (p, Json.print (CliM.textAdfOf o ord)) :: fs) ∧
+    (∀ q ∈ r.fs.paths, q ∈ fs.paths ∨ io.exportTo = some q) ∧
+    r.fs.paths.length ≤ fs.paths.length + 1 := by
+  intro r
+  rcases CliM.runTextIO_fs W fuel io ord t fs with e | ⟨p, o, h1, h2, h3, h4, h5, e⟩
+  · exact ⟨Or.inl e, fun q hq => Or.inl (by rw [← e]; exact hq), by show r.fs.paths.length ≤ _; rw [e]; omega⟩
+  · refine ⟨Or.inr ⟨p, o, h1, h2, h3, h4, h5, e⟩, ?_, by show r.fs.paths.length ≤ _; rw [e]; simp [CliM.FS.paths]⟩
+    intro q hq
+    have hq' : q ∈ r.fs.paths := hq
+    rw [e] at hq'
+    simp only [CliM.FS.paths, List.map_cons, List.mem_cons] at hq'
+    rcases hq' with h | h
+    · exact Or.inr (by rw [h, h1])
+    · exact Or.inl h
+
+/-- when the file IS written, and when the refusal is logged: in the naive arm, once the object is built,
+a free path receives the text and an existing one is refused; the other arms ignore the option; a run
+that panics before (unparsable text, `from_parser` panic, JSON error) writes nothing -/
+theorem export_happens_iff {T : Type} (W : CliM.World T) (fuel : Nat) (io : CliM.InvIO) (ord : CliM.Orders)
+    (t : List Char) (fs : CliM.FS) (p : CliM.Path) (he : io.exportTo = some p) :
+    (io.inv.mode ≠ .naive → CliM.runTextIO W fuel io ord t fs = ⟨CliM.runText W fuel io.inv t, fs, false⟩) ∧
+    (io.inv.mode = .naive → CliM.objOf W io t = none → CliM.runTextIO W fuel io ord t fs = ⟨CliM.rejected, fs, false⟩) ∧
+    (∀ o, io.inv.mode = .naive → CliM.objOf W io t = some o →
+      (fs.has p = true → CliM.runTextIO W fuel io ord t fs = ⟨CliM.outOn fuel io.inv o, fs, true⟩) ∧
+      (fs.has p = false →
+        CliM.runTextIO W fuel io ord t fs = ⟨CliM.outOn fuel io.inv o, (p, CliM.exportText o ord) :: fs, false⟩)) :=
+  ⟨fun hm => CliM.runTextIO_other W fuel io ord t fs hm,
+   fun hm ho => CliM.runTextIO_naive_none W fuel io ord t fs hm ho,
+   fun o hm ho => ⟨fun hx => by rw [CliM.runTextIO_naive W fuel io ord t fs hm o ho, CliM.runObjIO_has fuel io ord o fs p he hx],
+                   fun hx => by rw [CliM.runTextIO_naive W fuel io ord t fs hm o ho, CliM.runObjIO_free fuel io ord o fs p he hx]⟩⟩
+
+/-- **`--export p` on text `t`, then `--import` on the written file, prints what the direct run prints**
+(naive arm; every combination of the section flags, every heuristic, every bound `fuel` on the
+nogood-learning search - halted or not; the importing run may carry any sorting flag and a further
+`--export`): the exporting run's exit status and stdout are those of the run without `--export`
+(`CliM.runText`); if it panics nothing is written; otherwise the free path `p` holds the JSON text of the
+object, the importing run builds an object with the same names, conditions and NODE TABLE, computes
+the same blocks (same vectors in the same order) and prints the same lines with exit status 0.
+Hypotheses on the object: at most 2^64 − 2 statements and 2^64 nodes, `usize` values in `mapping`
+(`hml`), `ord.cl` an iteration order of the unique table. -/
+theorem export_then_import_prints_same {T : Type} (W : CliM.World T) (han : ∀ ns, (W.anSort ns).Perm ns) (fuel : Nat)
+    (i i' : CliM.Inv) (hm : i.mode = .naive) (hm' : i'.mode = .naive) (hf : i'.flags = i.flags) (hh : i'.heu = i.heu)
+    (p : CliM.Path) (ord ord' : CliM.Orders) (t : List Char) (fs : CliM.FS) (free : fs.get p = none)
+    (e' : Option CliM.Path) :
+    let r1 := CliM.runTextIO W fuel ⟨i, some p, false⟩ ord t fs
+    r1.out = CliM.runText W fuel i t ∧
+    (CliM.parsedObj W i t = none → r1 = ⟨CliM.rejected, fs, false⟩) ∧
+    ∀ o, CliM.parsedObj W i t = some o → o.names.length ≤ VBOT → o.store.nodes.size ≤ Json.B64 →
+      (∀ kv ∈ ord.ml, kv.2 < Json.B64) → ord.cl.Perm o.store.uniq.toList →
+      r1.out.exit = 0 ∧ r1.refused = false ∧ r1.fs = (p, CliM.exportText o ord) :: fs ∧
+      (∃ o', CliM.importObj (CliM.exportText o ord) = some o' ∧ o'.names = o.names ∧ o'.ac = o.ac ∧
+        o'.store.nodes = o.store.nodes ∧ CliM.blocksOn fuel i' o' = CliM.blocksOn fuel i o) ∧
+      (CliM.runFileIO W fuel ⟨i', e', true⟩ ord' p r1.fs).out = CliM.runText W fuel i t := by
+  intro r1
+  have hplain : r1.out = CliM.runText W fuel i t := CliM.runTextIO_plain W fuel i (some p) ord t fs
+  refine ⟨hplain, fun hn => CliM.runTextIO_naive_none W fuel _ ord t fs hm (by simp only [CliM.objOf]; exact hn), ?_⟩
+  intro o ho hsz hnodes hml hcl
+  have ⟨w, hlen, _, hv⟩ := CliM.parsedObj_ok W han i t o ho hsz
+  have fits := CliM.fits_of_ok o ord w hnodes hv hml hcl
+  have e1 : r1 = CliM.runObjIO fuel ⟨i, some p, false⟩ ord o fs :=
+    CliM.runTextIO_naive W fuel ⟨i, some p, false⟩ ord t fs hm o (by simp only [CliM.objOf]; exact ho)
+  have ⟨a, b, c, d, e⟩ := CliM.export_then_import_obj W fuel ⟨i, some p, false⟩ i' hm' hf hh p rfl ord ord' fs free
+    o w hlen hv hcl fits e'
+  rw [← e1] at a b c e
+  exact ⟨by rw [c]; rfl, b, a, d, by rw [e, hplain]⟩
+
+/-! non-vacuity of the export / import theorems: the two-statement object `a ↦ ¬b`, `b ↦ ¬a`
+(`C14More.negStore`: four nodes, two stable models), flags `--grd --com --stm --stmng`, a file system
+with one other file, export to the free path `x`, the maps in a non-canonical order -/
+
+def ioObj : CliM.NaiveObj :=
+  { names := [['a'], ['b']], mapping := HashMap.ofList [("a", 0), ("b", 1)], store := C14More.negStore, ac := [3, 2], n := 2 }
+def ioOrd : CliM.Orders := ⟨[("b", 1), ("a", 0)], C14More.negStore.uniq.toList⟩
+def ioInv : CliM.Inv := ⟨.naive, { grd := true, com := true, stm := true, stmng := true }, .none, .simple⟩
+def ioFs : CliM.FS := [(['n'], ['k', 'e', 'e', 'p'])]
+
+theorem ioObj_fits : Json.Fits (CliM.textAdfOf ioObj ioOrd) :=
+  CliM.fits_of_ok ioObj ioOrd C14More.negStore_WF
+    (by show C14More.negStore.nodes.size ≤ _; rw [C14More.negStore_nodes]; simp [Json.B64])
+    C14More.negAdf_ok.2
+    (fun kv h => by
+      have : kv = ("b", 1) ∨ kv = ("a", 0) := by simpa [ioOrd] using h
+      rcases this with h | h <;> subst h <;> simp [Json.B64])
+    (List.Perm.refl _)
+
+example :
+    let r1 := CliM.runObjIO 1000 ⟨ioInv, some ['x'], false⟩ ioOrd ioObj ioFs
+    r1.fs = [(['x'], CliM.exportText ioObj ioOrd), (['n'], ['k', 'e', 'e', 'p'])] ∧ r1.refused = false ∧
+    (CliM.runFileIO CliMP.exW 1000 ⟨{ ioInv with sort := .lx }, none, true⟩ ⟨[], []⟩ ['x'] r1.fs).out = r1.out ∧
+    -- a second export onto the now existing path is refused and changes nothing
+    (CliM.runObjIO 1000 ⟨ioInv, some ['x'], false⟩ ⟨[], []⟩ ioObj r1.fs).fs = r1.fs ∧
+    (CliM.runObjIO 1000 ⟨ioInv, some ['x'], false⟩ ⟨[], []⟩ ioObj r1.fs).refused = true := by
+  intro r1
+  have h := CliM.export_then_import_obj CliMP.exW 1000 ⟨ioInv, some ['x'], false⟩ { ioInv with sort := .lx } rfl rfl rfl
+    ['x'] rfl ioOrd ⟨[], []⟩ ioFs (by decide) ioObj C14More.negStore_WF rfl C14More.negAdf_ok.2 (List.Perm.refl _)
+    ioObj_fits none
+  have hx : CliM.FS.has r1.fs ['x'] = true := by rw [h.1]; decide
+  exact ⟨h.1, h.2.1, h.2.2.2.2, by rw [CliM.runObjIO_has 1000 _ _ ioObj r1.fs ['x'] rfl hx],
+    by rw [CliM.runObjIO_has 1000 _ _ ioObj r1.fs ['x'] rfl hx]⟩
+
+
+/-- the relational form (SOME iteration orders of the object's maps, `CliM.RunsIO`): whatever the orders,
+existing files keep their content and at most the requested path is new -/
+theorem export_never_overwrites_rel {T : Type} (W : CliM.World T) (fuel : Nat) (io : CliM.InvIO) (t : List Char)
+    (fs : CliM.FS) (r : CliM.OutIO) (h : CliM.RunsIO W fuel io t fs r) :
+    (∀ q c, fs.get q = some c → r.fs.get q = some c) ∧ (∀ q ∈ r.fs.paths, q ∈ fs.paths ∨ io.exportTo = some q) := by
+  obtain ⟨ord, _, rfl⟩ := h
+  exact ⟨fun q c hq => (export_never_overwrites_fs W fuel io ord t fs).1 q c hq,
+    (export_writes_only_target W fuel io ord t fs).2.1⟩
+
+/-- text-level non-vacuity (kernel-checked part): the text `s(b).s(a).ac(b,neg(a)).ac(a,neg(b)).` with `--lx`
+is accepted, the naive arm builds an object `o` from it (names sorted: a, b) and the hypotheses of
+`export_then_import_prints_same` on the number of statements and on `ord` hold for
+`ord = ⟨[("b",1),("a",0)], o.store.uniq.toList⟩`; the remaining one, `o.store.nodes.size ≤ 2^64`, is an
+evaluator check below (hash maps do not reduce in the kernel; the node table has 6 entries) -/
+example : ∃ o, CliM.parsedObj CliMP.exW { ioInv with sort := .lx } CliMP.exText = some o ∧ o.names = [['a'], ['b']] ∧
+    o.names.length ≤ VBOT ∧ (∀ kv ∈ ioOrd.ml, kv.2 < Json.B64) ∧
+    (o.store.uniq.toList).Perm o.store.uniq.toList := by
+  have hp : CliM.parsed CliMP.exW { ioInv with sort := .lx } CliMP.exText =
+      some (CliM.sortState CliMP.exW.anSort .lx (ParserM.PState.ofFacts CliMP.exFacts)) :=
+    CliMP.parsed_of_der CliMP.exW { ioInv with sort := .lx } CliMP.exText CliMP.exFacts CliMP.exText_der (by decide)
+  obtain ⟨fs, _, hder, pres⟩ := CliMP.parsed_pres CliMP.exW (fun _ => List.Perm.refl _) _ _ _ hp
+  have hfs : fs = CliMP.exFacts := hder.unique CliMP.exText_der
+  subst hfs
+  have hnames : CliMP.sortedNames CliMP.exW.anSort .lx (ParserM.namesOf CliMP.exFacts) = [['a'], ['b']] := by decide
+  rw [show ({ ioInv with sort := .lx } : CliM.Inv).sort = .lx from rfl, hnames] at pres
+  obtain ⟨_, s, ac, _, hfp, _⟩ := CliMP.items_facts pres (by unfold CliMP.WfOn; decide) (by simp [VBOT])
+  have ho : ∃ o, CliM.parsedObj CliMP.exW { ioInv with sort := .lx } CliMP.exText = some o ∧
+      o.names = (CliM.sortState CliMP.exW.anSort .lx (ParserM.PState.ofFacts CliMP.exFacts)).namelist := by
+    unfold CliM.parsedObj
+    rw [hp]
+    simp only
+    rw [hfp]
+    exact ⟨_, rfl, rfl⟩
+  obtain ⟨o, ho, hn⟩ := ho
+  rw [pres.nl] at hn
+  refine ⟨o, ho, hn, by rw [hn]; simp [VBOT], ?_, List.Perm.refl _⟩
+  intro kv h
+  have : kv = ("b", 1) ∨ kv = ("a", 0) := by simpa [ioOrd] using h
+  rcases this with h | h <;> subst h <;> simp [Json.B64]
+
+#guard ((CliM.parsedObj CliMP.exW { ioInv with sort := .lx } CliMP.exText).map fun o => o.store.nodes.size) == some 6
+-- the text-level statement executed: export, import of the written text, same output; 6 lines
+#guard
+  let cl := ((CliM.parsedObj CliMP.exW { ioInv with sort := .lx } CliMP.exText).map fun o => o.store.uniq.toList).getD []
+  let r1 := CliM.runTextIO CliMP.exW 1000 ⟨{ ioInv with sort := .lx }, some ['x'], false⟩ ⟨ioOrd.ml, cl.reverse⟩ CliMP.exText ioFs
+  let r2 := CliM.runFileIO CliMP.exW 1000 ⟨ioInv, none, true⟩ ⟨[], []⟩ ['x'] r1.fs
+  r1.out.exit == 0 && r1.out.stdout.length == 8 && r2.out == r1.out && r1.fs.map (·.1) == [['x'], ['n']] &&
+  r1.out == CliM.runText CliMP.exW 1000 { ioInv with sort := .lx } CliMP.exText
+
 end C14
 
 #print axioms C14.future_ops_same_handles
@@ -518,3 +716,9 @@ end C14
 #print axioms C14.text_answers_equal
 #print axioms C14.cli_export_then_import
 #print axioms C14.reader_tolerates
+#print axioms C14.export_never_overwrites_fs
+#print axioms C14.export_never_overwrites_file
+#print axioms C14.export_writes_only_target
+#print axioms C14.export_happens_iff
+#print axioms C14.export_then_import_prints_same
+#print axioms C14.export_never_overwrites_rel
